@@ -39,6 +39,7 @@ pub struct Ctx {
 
 impl Ctx {
     pub fn new(tier: Tier, seed: u64) -> Self {
+        crate::pool::set_order_seed(seed);
         let root = std::env::var_os("VERIF_ROOT").map(PathBuf::from).unwrap_or_else(|| PathBuf::from("/verif"));
         Ctx {
             tier,
@@ -221,10 +222,13 @@ pub fn finish(ctx: &Ctx, prop: &str, mut rep: Report, selfcheck: &[String]) -> i
         let mut printed = 0;
         for v in &st.violations {
             // one replay per (kind, job) ; print at most 10 lines
-            let body = json!({
+            let mut body = json!({
                 "property": v.property, "kind": v.kind, "detail": v.detail, "job": v.job,
                 "seed": ctx.seed, "tier": ctx.tier.name(),
             });
+            if crate::relstage::is_child() {
+                body["profile"] = json!("release");
+            }
             let text = serde_json::to_string_pretty(&body).unwrap();
             let h = oracle::rng::fnv(text.as_bytes());
             if !seen.insert(h) {
